@@ -33,7 +33,7 @@ func C11(c *vf.Ctx) {
 	c.Assume = append(c.Assume, sysAssumeObs, sysAssumeUnits,
 		"the server's base context carries no metadata of its own",
 		"codec part: the wire description of the metadata encoding is the one transcribed in spec/MetaCodec.tla (protobuf map<string,string> field 1)")
-	nT, nR := sizes(c, 8, 140, 24, 900)
+	nT, nR := sizes(c, 8, 140, 48, 3000)
 	fam := sysFamily{prop: "C11", maxRPC: 4, plen: 22,
 		cfgs: []sys.Config{
 			{Small: true, Soft: true, Threads: thr2},
@@ -90,7 +90,7 @@ func C10(c *vf.Ctx) {
 	c.Assume = append(c.Assume, sysAssumeObs, sysAssumeUnits,
 		"connection part: the scripted handler's error for stream s is the text \"e<s>\" with code 4000+s attached under two layers of wrapping",
 		"codec part: the error payload layout is the one transcribed in spec/ErrCodec.tla")
-	nT, nR := sizes(c, 8, 140, 24, 900)
+	nT, nR := sizes(c, 8, 140, 48, 3000)
 	var w0 *sys.World
 	var res string
 	fam := sysFamily{prop: "C10", maxRPC: 3, plen: 16,
@@ -190,7 +190,7 @@ func C10(c *vf.Ctx) {
 		design: &designCheck{cfg: sys.Config{Small: false, Threads: []string{"c1"}}, kinds: []string{"start", "hstep", "relw", "deliver"},
 			maxRPC: 1, maxStims: 6, invs: "TypeOK StreamInvs OneWrite WireOrdered"},
 		designT: &designCheck{cfg: sys.Config{Small: true, Threads: []string{"c1"}}, kinds: []string{"start", "hstep", "relw", "deliver"},
-			maxRPC: 2, maxStims: 8, invs: "TypeOK StreamInvs OneWrite WireOrdered"},
+			maxRPC: 2, maxStims: 10, invs: "TypeOK StreamInvs OneWrite WireOrdered"}, // measured: 2.1e6 distinct, 1.5 min
 	}
 	runSysFamily(c, fam, nT, nR)
 	muxErrors(c)
